@@ -9,6 +9,7 @@ func checkC11(p *Program, tier string) *Result {
 	evals := ruleFirstMatch(p, r, sites)
 	ruleAuthorProvenance(p, r, evals)
 	ruleScopeWins(p, r)
+	ruleBuildKeepsConfig(p, r)
 	r.Trusted = append(r.Trusted, "regexp implements RE2 semantics of ^(?:...)$ (whole-string match without (?m))", "strings.Join/TrimSpace")
 	r.Assumptions = append(r.Assumptions, "the exact argument list returned by a session authorization (value semantics of the service matcher over all configurations) is not decided")
 	return r
